@@ -71,7 +71,7 @@ namespace AIToolbox::Factored::MDP {
     double SparseCooperativeQLearning::getLearningRate() const { return alpha_; }
 
     void SparseCooperativeQLearning::setDiscount(const double d) {
-        if ( d <= 0.0 || d > 1.0 ) throw std::invalid_argument("Discount parameter must be in (0,1]");
+        if ( !(d > 0.0 && d <= 1.0) ) throw std::invalid_argument("Discount parameter must be in (0,1]");
         discount_ = d;
     }
 
